@@ -5,8 +5,15 @@ T = ("thorough",)
 QT = ("quick", "thorough")
 
 
-def mc(dir_, module, cfg, workers=4, heap="4g", tiers=QT, timeout=3000):
-    return {"dir": dir_, "module": module, "cfg": cfg, "workers": workers, "heap": heap, "tiers": tiers, "timeout": timeout}
+def mc(dir_, module, cfg, workers=4, heap="4g", tiers=QT, timeout=3000, expect=None):
+    j = {"dir": dir_, "module": module, "cfg": cfg, "workers": workers, "heap": heap, "tiers": tiers, "timeout": timeout}
+    if expect:
+        j["expect"] = expect
+    return j
+
+
+def algo(module, cfg, workers=6, heap="6g", tiers=QT, expect=None):
+    return mc("spec/algo", module, cfg, workers=workers, heap=heap, tiers=tiers, expect=expect)
 
 
 def drv(driver, profile="debug", tiers=QT, shards=None, features=None, timeout=None, env=None):
@@ -44,7 +51,10 @@ PROPS = {
         "drivers": [drv("mul", "debug"), drv("mul", "release", tiers=T)],
     },
     "C03": {
-        "mc": L0_QUICK + L0_THOROUGH,
+        "mc": L0_QUICK + L0_THOROUGH + [
+            algo("KnuthD.tla", "KnuthD_b4.cfg"), algo("KnuthD.tla", "KnuthD_b8s.cfg"),
+            algo("KnuthD.tla", "KnuthD_b4_cal1.cfg", expect="violation"), algo("KnuthD.tla", "KnuthD_b4_cal2.cfg", expect="violation"),
+            algo("KnuthD.tla", "KnuthD_b8.cfg", workers=14, heap="12g", tiers=T)],
         "drivers": [drv("div", "debug"), drv("div", "release", tiers=T)],
     },
     "C07": {
